@@ -60,12 +60,12 @@ ID = "C37"
 LEVEL = "exploration"
 QUICK_N = 100000
 THOROUGH_N = 3000000
-CHUNK = 100  # the runner keeps the first 6 violating scenarios per chunk only
-CANCEL_RATE = 0.04
+CHUNK = 500
+CANCEL_RATE = 0.08
 RULE = ("gen(seed): program from the grammar {emit, wait on future / list / dict / explicit multi / "
         "moment / None / nested coroutine (native or same-form), try/except/finally, raise, re-raise, "
         "return, gen.Return, for-loop, ContextVar get/set}, depth<=3, <=5 futures each result|"
-        "exception(|cancelled in 4% of runs), <=2 nested coroutines; completion script: futures done "
+        "exception(|cancelled in 8% of runs), <=2 nested coroutines; completion script: futures done "
         "before the start, others resolved in steps separated by 0/1 iteration/idle/k time units; "
         "which form's future is resolved first. non-trivial (measured) = the decorated form was "
         "suspended at least once (its future pending when the call returned, or a Runner resumed it) "
@@ -189,9 +189,7 @@ def gen(rng, tier, index):
             o = "cancel"
         futs.append({"o": o, "e": rng.randrange(len(EXC_NAMES))})
     likely = [EXC_NAMES[f["e"]] for f in futs if f["o"] == "exc"]
-    # cancelled futures are awaited singly only: in a list/dict they would hit multi's own
-    # cancelled-input defect (C36) in both forms, with timing-dependent symptoms
-    multi_ok = [k for k in range(nf) if futs[k]["o"] != "cancel"]
+    multi_ok = list(range(nf))  # (cancelled futures were kept out of lists until multi was fixed)
     nsub = rng.choice([0, 0, 1, 1, 2])
     subs = []
     for j in range(nsub):
@@ -572,7 +570,11 @@ def _run(scn, full_log):
                 await loop.idle()
             S["caller_cv"] = CV.get()
 
-        status = env.run(main())
+        try:
+            status = env.run(main())
+        except BaseException as e:  # a BaseException from a callback tore through run_forever
+            status = "error:" + type(e).__name__
+            env.main_exception = e
         if status != "done":
             bad("harness.main_" + status.split(":")[0],
                 f"driver did not finish: {status} {getattr(env, 'main_exception', None)!r}")
